@@ -887,6 +887,133 @@ def corpus_cases():
     return out
 
 
+# ----------------------------------------------------------------------------- fixed probes (independent of the seed)
+
+PROBE_GRID_A = {'srs': 'EPSG:3857', 'bbox': [0, 0, 1280, 640], 'tile_size': [16, 16], 'res': [40, 20, 10], 'origin': 'nw',
+                'stretch_factor': 1.125, 'max_shrink_factor': 4.0}
+PROBE_GRID_B = {'srs': 'EPSG:3857', 'bbox': [-640, -640, 640, 640], 'tile_size': [8, 8], 'res': [80, 40], 'origin': 'll',
+                'stretch_factor': 1.125, 'max_shrink_factor': 4.0}
+PROBE_OPTS = {'meta': [1, 1], 'max_tiles': None, 'dims': {}, 'queryable': True, 'mixed': False, 'buffer': 0, 'minimize': False,
+              'format': 'png'}
+
+# GetMap requests in EPSG:4326 on mercator caches: (bbox, sizes).  Every bbox lies inside the mercator extent
+# (|lat| <= 85), so nothing is cut before the tiles are counted.
+PROBE_4326_BBOXES = [(-180, -85, 180, 85), (-90, -60, 90, 60), (0, 0, 90, 66), (-180, 0, 0, 80), (10, 40, 30, 60),
+                     (-180, -85, 0, 0)]
+PROBE_4326_SIZES = [(2000, 1000), (1000, 500), (500, 250), (800, 800), (1500, 700), (300, 150), (256, 256)]
+
+
+def process_map_other_srs(ctx, app, rec, li, srs, bbox, size):
+    """WMS GetMap in an SRS different from the SRS of the cache grid (not modelled: oracle only).  The tile limit
+    counts the tiles of the grid that cover the transformed bbox (CacheMapLayer._image: tile_grid of
+    get_affected_tiles); a request that needs max_tile_limit tiles or more is refused before anything is fetched,
+    and - independent of any count the implementation reports - an answered request never touched that many tiles."""
+    from mapproxy.grid import GridError, NoTiles
+    from mapproxy.srs import SRS
+    p = [('service', 'WMS'), ('request', 'GetMap'), ('version', '1.1.1'), ('layers', li.name), ('styles', ''), ('srs', srs),
+         ('bbox', ','.join(str(v) for v in bbox)), ('width', str(size[0])), ('height', str(size[1])), ('format', 'image/png')]
+    url = '/service?' + '&'.join('%s=%s' % (k, quote(v, safe=',')) for k, v in p)
+    ans, log, _resp = run_request(app, rec, url)
+    _effs, _cached, summ = effects_of(li, log)
+    for e in log:
+        if e[0] == 'store':
+            li.stored.add(e[2])
+    touched = sorted({tuple(e[1]) for e in summ if e[0] in ('read', 'probe', 'store', 'remove')})
+    fetched = [e for e in summ if e[0] == 'up']
+    rep = {'grid': li.spec, 'layer_options': {'meta_size': li.opts['meta'], 'max_tile_limit': li.opts['max_tiles'],
+                                              'meta_buffer': li.opts.get('buffer', 0)},
+           'request': {'srs': srs, 'bbox': list(bbox), 'size': list(size)}, 'url': url,
+           'answer': ans if isinstance(ans, str) else list(ans), 'distinct_tiles_touched': len(touched),
+           'upstream_requests': len(fetched), 'effects': summ[:12]}
+    ctx.case(('map-other-srs', json.dumps(li.spec, sort_keys=True), li.limit, url), True, rep)
+    ctx.count('map_kind=other-srs')
+    ctx.count('answer=' + (ans if isinstance(ans, str) else 'other'))
+    if not isinstance(ans, str):
+        ctx.problem('correspondence', 'unclassified answer of the implementation for %s' % url, {'answer': list(ans)})
+        return
+    outside = coords_in_grid(li, summ)
+    if outside:
+        ctx.fail('map,other-srs,cache-coordinate-outside-grid', 'cache operation on a coordinate outside the grid: %r for %s' % (outside[:3], url), rep)
+    n = None
+    try:
+        _b, tg, _t = li.grid.get_affected_tiles(tuple(float(v) for v in bbox), tuple(size), req_srs=SRS(srs))
+        n = tg[0] * tg[1]
+    except (NoTiles, GridError):
+        n = None
+    except Exception:  # noqa
+        n = None
+    rep['tiles_needed'] = n
+    if li.limit and len(touched) >= li.limit:
+        # whatever number the limit was compared with: this one request worked on max_tile_limit tiles or more
+        ctx.fail('map,other-srs,tile-limit,answered' if ans == 'Ok' else 'map,other-srs,tile-limit,effects',
+                 'GetMap in %s touched %d distinct tiles (%d upstream requests) although max_tile_limit is %d, answer %r: %s' % (
+                     srs, len(touched), len(fetched), li.limit, ans, url), rep)
+        return
+    if n is not None and li.limit and n >= li.limit:
+        if ans == 'Ok':
+            ctx.fail('map,other-srs,tile-limit,answered', 'GetMap in %s needing %d tiles answered although max_tile_limit is %d: %s' % (
+                srs, n, li.limit, url), rep)
+        elif summ:
+            ctx.fail('map,other-srs,tile-limit,effects', 'GetMap in %s over the tile limit (%d >= %d) caused %r: %s' % (
+                srs, n, li.limit, summ[:3], url), rep)
+        elif ans != 'TooManyTiles':
+            ctx.fail('map,other-srs,tile-limit,wrong-error', 'GetMap in %s over the tile limit (%d >= %d) refused with %r: %s' % (
+                srs, n, li.limit, ans, url), rep)
+        return
+    if ans != 'Ok' and costly(summ):
+        ctx.fail('map,other-srs,refused-with-effects', 'request refused with %r after %r: %s' % (ans, costly(summ)[:3], url), rep)
+    elif n is not None and li.limit and n < li.limit and ans == 'TooManyTiles':
+        ctx.fail('map,other-srs,below-limit-refused', 'GetMap in %s needing %d tiles refused although max_tile_limit is %d: %s' % (
+            srs, n, li.limit, url), rep)
+
+
+def fixed_probes(ctx, col, rec, seq):
+    """Probes that do not depend on the seed (no use of ctx.rng).
+    (1) two layers on different grids in one application: every tile service is asked for layer A with the matrix set /
+        grid name that only layer B offers (and the other way round), with addresses valid in A's grid, valid in B's
+        grid and valid in both; a matrix set the layer does not link is refused without cost (model: UnknownLayer /
+        UnknownMatrixSet; the cases also go through the correspondence).
+    (2) GetMap in EPSG:4326 on mercator caches with a max_tile_limit, around the limit (oracle only)."""
+    try:
+        app = App(ctx, [('pa', dict(PROBE_GRID_A), dict(PROBE_OPTS), False, False),
+                        ('pb', dict(PROBE_GRID_B), dict(PROBE_OPTS), False, False),
+                        ('pm', {'base': 'GLOBAL_MERCATOR', 'num_levels': 6}, dict(PROBE_OPTS, queryable=False), True, False)],
+                  None, None, info_formats=True)
+        prepare(app, col, seq)
+        for li in app.layers:
+            for lo in app.layers:
+                if lo is li:
+                    continue
+                deep_i, deep_o = li.grid.levels - 1, lo.grid.levels - 1
+                addrs = [(0, 0, 0),
+                         (li.grid.grid_sizes[deep_i][0] - 1, li.grid.grid_sizes[deep_i][1] - 1, deep_i),
+                         (lo.grid.grid_sizes[deep_o][0] - 1, lo.grid.grid_sizes[deep_o][1] - 1, deep_o)]
+                for svc in SVCS:
+                    for x, y, z in addrs:
+                        if svc == 'TMS' and li.skip_first:
+                            z = max(z - 1, 0)
+                        q = {'svc': svc, 'x': str(x), 'y': str(y), 'z': str(z), 'fmt': None if svc == 'WmtsRestFI' else 'png',
+                             'dims': {}, 'layer': li.name, 'gridname': lo.gname, 'origin': None, 'i': 1, 'j': 1,
+                             'infofmt': 'txt' if svc == 'WmtsRestFI' else 'text/plain'}
+                        process_tile(ctx, col, app, rec, li, q)
+                        ctx.count('probe=matrix-set-of-other-layer')
+    except Exception as e:  # noqa
+        ctx.problem('harness', 'fixed probe (matrix set of another layer) could not be run: %r' % (e,))
+    try:
+        app = App(ctx, [('qa', {'base': 'GLOBAL_MERCATOR', 'num_levels': 5}, dict(PROBE_OPTS, max_tiles=50, queryable=False), True, False),
+                        ('qb', {'base': 'GLOBAL_WEBMERCATOR', 'num_levels': 4}, dict(PROBE_OPTS, max_tiles=9, queryable=False), True, False),
+                        ('qc', {'base': 'GLOBAL_MERCATOR', 'num_levels': 4, 'tile_size': [128, 128], 'origin': 'nw'},
+                         dict(PROBE_OPTS, max_tiles=16, meta=[2, 2], queryable=False), True, False)],
+                  None, None, info_formats=True)
+        prepare(app, col, seq)
+        for li in app.layers:
+            for bbox in PROBE_4326_BBOXES:
+                for size in PROBE_4326_SIZES:
+                    process_map_other_srs(ctx, app, rec, li, 'EPSG:4326', bbox, size)
+    except Exception as e:  # noqa
+        ctx.problem('harness', 'fixed probe (GetMap in another SRS around the tile limit) could not be run: %r' % (e,))
+
+
 class Collector(object):
     def __init__(self):
         self.defs = {}
@@ -1102,6 +1229,7 @@ def run(ctx):
                 ctx.count('corpus_files')
             except Exception as e:  # noqa
                 ctx.problem('harness', 'corpus file %s could not be replayed: %r' % (fn, e))
+        fixed_probes(ctx, col, rec, seq)
         for a in range(n_apps):
             maxpix = rng.choice([None, [64, 48], [100, 100], [300, 200], [256, 256], [128, 96], [12, 12], [16, 8]])
             specs = make_specs(ctx, n_exact, with_real=(a == 0 or not ctx.quick))
